@@ -538,7 +538,16 @@ func parseSpecTD(ans string) []tdVerdict {
 // specification, Process() must report an error positioned at it: exactly at the typedef's type
 // statement, with class unknown-type / unknown-prefix, when that statement's own name is unbound;
 // else at some statement of its derivation (the typedef, its type statement and what is below it,
-// the typedefs that names and their type statements, ...).
+// the typedefs that names and their type statements, ...).  This is the leaf-level verdict (ERR:
+// some error is reported for the reference) with "for the reference" read off the positions, as
+// Process() returns one flat list.  Three kinds of error carry no statement position: an identity
+// base that is not found (position of the (sub)module statement, or none), a require-instance
+// argument that is not a boolean and an extension statement with an unknown prefix (none).  Where
+// the derivation holds such a statement the driver lists these positions with the derivation
+// (Drv.Types.unplaced): the library stops at a typedef that fails to resolve before it looks at
+// the member types written below the type statement naming it (`type a { type nosuch; }` with a
+// broken `a`), so such an error may be the only one the derivation gets; a leaf of that type is
+// judged the same way (ERR, any error).  Corpus: unplaced-*.json.
 func specCheckTD(g goRes, tds []tdVerdict) []string {
 	if g.Panic != "" || g.ParseErr != "" {
 		return nil
@@ -574,7 +583,7 @@ func specCheckTD(g goRes, tds []tdVerdict) []string {
 			}
 		}
 		if !ok {
-			bad = append(bad, fmt.Sprintf("typedef %s: 'an unknown, unresolvable or cyclic type reference is an error' (wherever the reference stands, also as the type of a typedef no leaf uses): the derivation of this typedef's type is cyclic or reaches an unknown name, but Process() reports no error at any statement of the derivation %v (it reports %v)", v.Key, head(v.Closure, 8), head(g.P1, 6)))
+			bad = append(bad, fmt.Sprintf("typedef %s: 'an unknown, unresolvable or cyclic type reference is an error' (wherever the reference stands, also as the type of a typedef no leaf uses): the derivation of this typedef's type is cyclic or reaches an unknown name, but Process() reports no error at any statement of the derivation (nor, for an identity base, require-instance or extension statement in it, an error that names only the module or nothing) %v (it reports %v)", v.Key, head(v.Closure, 8), head(g.P1, 6)))
 		}
 	}
 	sort.Strings(bad)
@@ -1181,7 +1190,7 @@ func main() {
 		"a cyclic definition is compared by class only: which statement of the cycle is named depends on where the memoising traversal entered it first",
 		"sets in which an include/import does not resolve are compared only on Process() reporting it",
 		"packagings: every corpus set of two or more files in every load order (up to 3 files; identity, reverse and rotations beyond), and a share of every generated group (1 in 4 to 8; all scope/ cases), is loaded again with the same statements cut into source texts differently: all in one text, a module with its submodule in one text, an importer with an imported module in one text; a packaged case is compared with the model and judged by the specification like any other, and its Go observation (types, defaults, errors per leaf, Process() errors; positions mapped back) with that of the one-statement-per-text form in the same load order",
-		"typedef statements themselves (specification verdict per typedef statement, any scope, used or not): where the type of a typedef is unknown, unresolvable or cyclic by lexical binding, Process() must report an error at it - exactly at the typedef's type statement (class unknown type / unknown prefix) when that statement's own name is unbound, else at some statement of the derivation; utd/ cases: 12 scope shapes (module, submodule, container, list, used and unused grouping, rpc, input, output, notification, action, grouping in a list in a container) x 19 typedef groups (2 controls; unknown name plain / own prefix / foreign prefix, unknown prefix, a name visible only in a sibling scope or in a nested scope of the imported module, cycles of length 1-3 directly and through unions, chain to an unknown name, unknown union member, dependence on a cyclic typedef, bad range / length / range outside the base / fraction-digits on an integer) x alone or next to a used typedef, then random combinations of 1-3 scopes (also in the submodule's text; also next to an unused good typedef, or used by a leaf itself), files in random order; the restriction faults of the utd/ texts are also judged by construction (utdPlantedCheck: Process() must report an error at the descending range / length, the range outside int8, the type statement with fraction-digits on int16), independent of the model",
+		"typedef statements themselves (specification verdict per typedef statement, any scope, used or not): where the type of a typedef is unknown, unresolvable or cyclic by lexical binding, Process() must report an error at it - exactly at the typedef's type statement (class unknown type / unknown prefix) when that statement's own name is unbound, else at some statement of the derivation (an identity base, non-boolean require-instance or extension statement of the derivation may answer with an error that carries the position of its (sub)module statement or none); utd/ cases: 12 scope shapes (module, submodule, container, list, used and unused grouping, rpc, input, output, notification, action, grouping in a list in a container) x 19 typedef groups (2 controls; unknown name plain / own prefix / foreign prefix, unknown prefix, a name visible only in a sibling scope or in a nested scope of the imported module, cycles of length 1-3 directly and through unions, chain to an unknown name, unknown union member, dependence on a cyclic typedef, bad range / length / range outside the base / fraction-digits on an integer) x alone or next to a used typedef, then random combinations of 1-3 scopes (also in the submodule's text; also next to an unused good typedef, or used by a leaf itself), files in random order; the restriction faults of the utd/ texts are also judged by construction (utdPlantedCheck: Process() must report an error at the descending range / length, the range outside int8, the type statement with fraction-digits on int16), independent of the model",
 		"multi-revision cases: module b in 2-3 revisions with differing same-named typedefs, imports pinned by revision-date / unpinned / pinned to an absent revision, one or two imports of b per importer, references direct, through typedefs of typedefs, unions and a third module")
 	res.Write(f.Out)
 }
